@@ -303,4 +303,47 @@ def saveImpl (cfg : Cfg β) (f : AFont β) (fs : FS β) (t : APath) : Option Sav
     | .error e => (some (.cleanup e), fs)
     | .ok fs1 => runEffs (plan cfg f d i t) fs1
 
+/-! ## specification side (C09): safe relative paths and the files a font determines -/
+
+def namesOf (p : Path.P) : List Name :=
+  p.comps.filterMap fun c => match c with
+    | .normal n => some n
+    | _ => none
+
+/-- a relative path made of one or more normal components: no root, no `.`, no `..`, not empty -/
+def safeRel (p : Path.P) : Bool := !p.abs && !p.comps.isEmpty && p.allNormal
+
+/-- every relative path the save joins onto the target is safe: layer directories, glif file names, store keys -/
+def safePaths (f : AFont β) : Bool :=
+  f.layers.all (fun l => safeRel (Path.parse l.dir) && l.entries.all fun e => safeRel (Path.parse e.file)) &&
+  f.data.items.all (fun kc => safeRel kc.1) && f.images.items.all (fun kc => safeRel kc.1)
+
+/-- all non-empty proper prefixes of `names`, under `base` -/
+def dirsBelow (base : APath) : List Name → List APath
+  | [] => []
+  | [_] => []
+  | n :: r => (base ++ [n]) :: dirsBelow (base ++ [n]) r
+
+/-- the paths below (and including) the target that a font with safe paths determines: `(path, isFile)` -/
+def expectedPaths (f : AFont β) (t : APath) : List (APath × Bool) :=
+  let top (name : String) : APath × Bool := (t ++ [name.toList], true)
+  let hasLib := !(f.lib.isEmpty && ((dumpObjectLibs f.info.guides).getD []).isEmpty)
+  [(t, false), top "metainfo.plist"] ++
+  (if f.info.isEmpty then [] else [top "fontinfo.plist"]) ++
+  (if hasLib then [top "lib.plist"] else []) ++
+  (if f.groups = 0 then [] else [top "groups.plist"]) ++
+  (if f.kerning = 0 then [] else [top "kerning.plist"]) ++
+  (if f.features = 0 then [] else [top "features.fea"]) ++
+  [top "layercontents.plist"] ++
+  f.layers.flatMap (fun l =>
+    let d := t ++ namesOf (Path.parse l.dir)
+    [(d, false), (d ++ [contentsFile.toList], true)] ++
+    (if l.info = 0 then [] else [(d ++ [layerinfoFile.toList], true)]) ++
+    l.entries.map fun e => (d ++ namesOf (Path.parse e.file), true)) ++
+  f.data.items.flatMap (fun kc =>
+    (t ++ ["data".toList], false) :: (dirsBelow (t ++ ["data".toList]) (namesOf kc.1)).map (·, false) ++
+    [(t ++ ["data".toList] ++ namesOf kc.1, true)]) ++
+  (if f.images.items.isEmpty then [] else
+    (t ++ ["images".toList], false) :: f.images.items.map fun kc => (t ++ ["images".toList] ++ namesOf kc.1, true))
+
 end FontSave
